@@ -23,6 +23,8 @@ re-spellings never reach a rule:
       `x += [<list comprehension>]` become the for/if loops that append the element
   N13 `d[k] if k in d else V`, `if k in d: x = d[k] else: x = V` and `x = V; if k in d: x = d[k]` (V a literal or a plain name; also under
       bool()/int()/str()/float() when V is that conversion's fixed point) become `d.get(k, V)`; `.get(k, None)` is `.get(k)`
+  N14 a for statement that unpacks its elements (`for a, (b, c) in pairs`) reads them by position instead (one loop variable, a -> v[0],
+      c -> v[1][1]); enumerate() and .items() loops keep their unpacked form
 
 Positions are kept (reports still name the original lines).  The transformation is the same for the tree the rules were
 written against and for the tree under analysis, so it can only remove differences, never create one.
@@ -440,10 +442,80 @@ class _Norm(ast.NodeTransformer):
 
     def visit_For(self, node):
         self.generic_visit(node)
+        if self.fn_stack and isinstance(node, ast.For):
+            self._index_form(node)
         if self.fn_stack:
             node.body = self._tail_form(node.body, ast.Continue) or [ast.copy_location(ast.Pass(), node)]
         return node
     visit_While = visit_For
+
+    def _index_form(self, node):
+        """N14: `for a, (b, c) in pairs:` reads the elements by position: `for a_b_c in pairs:` with a -> a_b_c[0], b -> a_b_c[1][0] ...
+        (not for enumerate()/.items(), whose unpacked spelling is the only one in use; not when a name is re-bound in the body)"""
+        t = node.target
+        if not isinstance(t, (ast.Tuple, ast.List)):
+            return
+        it = node.iter
+        if isinstance(it, ast.Call) and ((isinstance(it.func, ast.Name) and it.func.id == "enumerate")
+                                         or (isinstance(it.func, ast.Attribute) and it.func.attr == "items")):
+            return
+        paths = {}
+
+        def walk(x, path):
+            if isinstance(x, ast.Name):
+                paths[x.id] = path
+            elif isinstance(x, (ast.Tuple, ast.List)):
+                for i, e in enumerate(x.elts):
+                    walk(e, path + (i,))
+            else:
+                raise ValueError
+        try:
+            walk(t, ())
+        except ValueError:
+            return
+        names = [n for n in paths if n != "_"]
+        if not names:
+            return
+        body_mod = ast.Module(body=node.body + node.orelse, type_ignores=[])
+        for n in ast.walk(body_mod):
+            if isinstance(n, ast.Name) and n.id in paths and not isinstance(n.ctx, ast.Load):
+                return
+            if isinstance(n, (ast.FunctionDef, ast.AsyncFunctionDef, ast.Lambda)):
+                a = n.args
+                if any(x.arg in paths for x in a.posonlyargs + a.args + a.kwonlyargs):
+                    return
+        new = "_".join(names)
+        # the new loop variable may share its name with the unpacked names it replaces and with the loop variable of another (not
+        # enclosing, not enclosed) loop; any other use of that name in the function keeps the loop as it is
+        fn = self.fn_stack[-1]
+        inside = {id(x) for x in ast.walk(node)}
+        for n in ast.walk(fn):
+            nm = n.id if isinstance(n, ast.Name) else n.arg if isinstance(n, ast.arg) else None
+            if nm != new or nm in paths and id(n) in inside:
+                continue
+            if id(n) in inside:
+                return
+            owner = getattr(n, "_n14_loop", None)
+            if owner is None:
+                return
+        for lp in ast.walk(node):
+            if lp is not node and isinstance(lp, ast.For) and isinstance(lp.target, ast.Name) and lp.target.id == new:
+                return
+
+        class R(ast.NodeTransformer):
+            def visit_Name(s, n):
+                if n.id in paths and n.id != "_" and isinstance(n.ctx, ast.Load):
+                    e = ast.Name(id=new, ctx=ast.Load())
+                    e._n14_loop = node
+                    for i in paths[n.id]:
+                        e = ast.Subscript(value=e, slice=ast.Constant(value=i), ctx=ast.Load())
+                    return ast.copy_location(e, n)
+                return n
+        node.body = [R().visit(s) for s in node.body]
+        node.orelse = [R().visit(s) for s in node.orelse]
+        node.target = ast.copy_location(ast.Name(id=new, ctx=ast.Store()), t)
+        node.target._n14_loop = node
+        ast.fix_missing_locations(node)
 
     @staticmethod
     def _bare(st, kind) -> bool:
